@@ -20,6 +20,8 @@ def atoms_for(r):
         "size between 5 and 10", "size not between 5 and 10",
         "name like 'a%'", "name not like 'a%'", "name = '*.txt'", "name != '*.txt'", "name =~ '^b'", "name !=~ '^b'",
         "name === 'a1.txt'", "name !== 'a1.txt'", "ext = 'txt'", "ext != 'txt'",
+        "name === 'a*'", "name !== 'a*'", "name === '?dir'", "modified === '2023-11-15'", "modified !== '2023-11-15'",
+        "name eeq 'a*'", "name = 'a*'", "name like 'a_'", "name notlike '%.txt'",
         "is_dir", "is_dir = false", "is_file = true",
         "hardlinks = 1", "hardlinks > 1", "length(name) > 5", "length(name) <= 5",
         "modified > '2023-11-15'", "modified <= '2023-11-15'", "modified = '2023-11-15'", "modified != '2023-11-15'",
@@ -38,6 +40,8 @@ def tree():
                 if (i * 7) % 5 < 2:
                     ents.append({"path": name % i, "kind": "f", "size": size, "mode": 0o755 if i % 3 else 0o644, "mtime": mt})
                 i += 1
+    ents.append({"path": "a*", "kind": "f", "size": 10, "mode": 0o644, "mtime": day + 5})
+    ents.append({"path": "ab", "kind": "f", "size": 10, "mode": 0o644, "mtime": day})
     ents.append({"path": "adir", "kind": "d", "mode": 0o755, "mtime": day})
     ents.append({"path": "bdir.txt", "kind": "d", "mode": 0o700, "mtime": day + 86400})
     ents.append({"path": "adir/a1.txt", "kind": "f", "size": 10, "mode": 0o644, "mtime": day})
